@@ -109,6 +109,8 @@ def host_pairs(rng, idx, of):
                 continue
             for tl in (["localhost"], [".localhost", "127.0.0.1"], ["a.com", ".a.com"], ["[::1]", "localhost"], [rng.choice(ENTRIES), rng.choice(ENTRIES)], [rng.choice(ENTRIES)]):
                 yield h + port, tl
+            # a configured but empty list trusts nobody (it is not "no validation")
+            yield h + port, ([], (), frozenset())[n % 3]
             # the host itself listed with a port, and its parent listed with a leading dot and a port
             if h and ":" not in h:
                 yield h + port, [h + ":8080"]
@@ -418,6 +420,59 @@ def check_pin_histories(rec, idx, of, maxlen):
                 rec.observe("pin_history_nodes")
                 if r["auth"] != exp_auth:
                     rec.violation("C20/PIN-LOCKOUT-BYPASS" if r["auth"] else "C20/correct-pin-refused-before-lockout", f"{fam[:k + 1]!r}: {r}", {"part": "pin", "history": fam[:k + 1]}, monitor="counter-model")
+                    break
+    if idx == 1 % of:
+        # a burst of wrong PINs from parallel requests (threaded server): every one of them counts.  The virtual
+        # clock's sleep is a rendezvous, so all requests of a burst are inside their delay at the same time.
+        import threading
+
+        class Rendezvous(FakeTime):
+            def __init__(self, n):
+                self.barrier = threading.Barrier(n)
+                self.broken = False
+
+            def sleep(self, s):
+                try:
+                    self.barrier.wait(timeout=20)
+                except threading.BrokenBarrierError:
+                    self.broken = True
+
+        for burst in (2, 4, 8):
+            for more in (0, 11 - burst):
+                app._failed_pin_auth.value = 0
+                rv = Rendezvous(burst)
+                dbg.time = rv
+                errs = []
+
+                def one():
+                    try:
+                        attempt("wrong")
+                    except Exception as e:  # noqa: BLE001
+                        errs.append(repr(e))
+
+                ths = [threading.Thread(target=one) for _ in range(burst)]
+                for t_ in ths:
+                    t_.start()
+                for t_ in ths:
+                    t_.join(60)
+                dbg.time = ft
+                rec.case()
+                rec.nontrivial(("pin-burst", burst, more))
+                case = {"part": "pin", "history": [f"{burst} parallel wrong", f"{more} wrong", "right"]}
+                if rv.broken or errs or any(t_.is_alive() for t_ in ths):
+                    rec.observe("pin_burst_not_overlapped")
+                    continue
+                rec.observe("pin_bursts_overlapped")
+                counted = app._failed_pin_auth.value
+                if counted != burst:
+                    rec.violation("C20/failed-pin-attempts-lost-under-concurrency", f"{burst} parallel failed attempts advanced the counter to {counted}", case, monitor="counter-model")
+                    break
+                for _ in range(more):
+                    attempt("wrong")
+                r = attempt("right")
+                exp_auth = burst + more <= 10
+                if r["auth"] != exp_auth:
+                    rec.violation("C20/PIN-LOCKOUT-BYPASS" if r["auth"] else "C20/correct-pin-refused-before-lockout", f"{case['history']}: {r}", case, monitor="counter-model")
                     break
     rec.observe("virtual_seconds_slept", int(ft.slept))
     rec.sample({"part": "pin", "history": ["wrong"] * 11 + ["right"], "expected": "refused (exhausted)"})
